@@ -25,6 +25,26 @@ def code_objects_of(*owners):
     return out
 
 
+def code_objects_of_module(*modules):
+    """code objects of everything defined in the given modules: module-level functions, the methods and properties of their classes,
+    and the methods of the types of module-level callable INSTANCES (a function replaced by a callable object keeps its yield points)"""
+    import types
+
+    out = []
+    for m in modules:
+        fname = getattr(m, "__file__", None)
+        owners = [m]
+        for v in list(vars(m).values()):
+            if isinstance(v, type) and getattr(v, "__module__", None) == m.__name__:
+                owners.append(v)
+            elif callable(v) and not isinstance(v, (type, types.FunctionType, types.BuiltinFunctionType, types.ModuleType)) and getattr(type(v), "__module__", None) == m.__name__:
+                owners.append(type(v))
+        for c in code_objects_of(*owners):
+            if c.co_filename == fname and c not in out:
+                out.append(c)
+    return out
+
+
 def run_concurrently(bodies, codes, sleep=0.0002, max_yields=20000, timeout=180):
     """-> (results, yields): results[i] = ("ok", value) | ("exc", repr) | None (still running after timeout)"""
     mon = sys.monitoring
